@@ -41,6 +41,35 @@ var callSpecs = []callSpec{
 		r2 := a.ForEach(func(g geojson.Object) bool { return false })
 		return fmt.Sprint(n, r, r2)
 	}},
+	{"Abandoned", false, func(a, _ geojson.Object) string {
+		// walks the caller abandons by panicking out of the callback (and
+		// recovering, as a server does per request) at the 1st, 2nd, 3rd part
+		var out []int
+		walk := func(k int, search bool) {
+			n := 0
+			defer func() {
+				recover()
+				out = append(out, n)
+			}()
+			cb := func(geojson.Object) bool {
+				n++
+				if n == k {
+					panic("abandoned")
+				}
+				return true
+			}
+			if c, ok := a.(geojson.Collection); ok && search {
+				c.Search(geometry.Rect{Min: geometry.Point{X: -1e9, Y: -1e9}, Max: geometry.Point{X: 1e9, Y: 1e9}}, cb)
+			} else {
+				a.ForEach(cb)
+			}
+		}
+		for k := 1; k <= 3; k++ {
+			walk(k, false)
+			walk(k, true)
+		}
+		return fmt.Sprint(out)
+	}},
 	{"Spatial.Within*", false, func(a, _ geojson.Object) string {
 		s := a.Spatial()
 		return fmt.Sprint(s.WithinRect(callRect), s.WithinPoint(callPt), s.WithinLine(callLine), s.WithinPoly(callPoly))
@@ -182,6 +211,24 @@ func handAssembled() []struct {
 	}
 }
 
+// buildQueries: the calls made on every constructed object of c05Builders.
+func buildQueries(obj geojson.Object) string {
+	obj.Contains(obj)
+	obj.Intersects(obj)
+	js := obj.JSON()
+	obj.Spatial().IntersectsRect(callRect)
+	pt := geojson.NewPoint(geometry.Point{X: 1, Y: 1})
+	obj.Contains(pt)
+	obj.Intersects(pt)
+	pt.Within(obj)
+	pt.Intersects(obj)
+	obj.Distance(pt)
+	obj.Rect()
+	obj.Valid()
+	obj.NumPoints()
+	return js
+}
+
 // c05Builders: constructions that may themselves fail (index building over
 // degenerate layouts); run under the same fuel / panic guard as calls.
 func c05Builders() []struct {
@@ -271,6 +318,19 @@ func c05Builders() []struct {
 			}
 		}
 	}
+	// circles of every step count (the polygon behind a circle is built lazily,
+	// by the first call that needs it)
+	for steps := -2; steps <= 1100; steps++ {
+		for ci, c := range [][3]float64{{10, 20, 50000}, {0, 0, 1e6}} {
+			steps, c := steps, c
+			out = append(out, struct {
+				name string
+				fn   func() geojson.Object
+			}{fmt.Sprintf("circle#%d steps=%d", ci, steps), func() geojson.Object {
+				return geojson.NewCircle(geometry.Point{X: c[0], Y: c[1]}, c[2], steps)
+			}})
+		}
+	}
 	return out
 }
 
@@ -313,10 +373,7 @@ func evalCall(c *rt.Case) (bool, string, string, error) {
 		if c.Op == "build" {
 			for _, b := range c05Builders() {
 				if b.name == c.X["recv"] {
-					obj := b.fn()
-					obj.Contains(obj)
-					obj.Intersects(obj)
-					r.out = obj.JSON()
+					r.out = buildQueries(b.fn())
 					return
 				}
 			}
